@@ -116,6 +116,9 @@ func genC11(seed uint64, index int, tier string) C11Cfg {
 	c.K = r.Intn(60)
 	c.J = r.Intn(150)
 	c.CancelAt = r.Intn(250)
+	if rd := prng.Derive(seed, "real-init-delay"); c.Sess.Deploy.Backend != "scripted" && rd.Bool(0.3) {
+		c.Sess.Deploy.RealInitDelayMs = rd.Range(1, 40)
+	}
 	// a third of the runs: the same scenario over small non-contiguous identifiers (order-preserving renaming)
 	if r.Bool(0.33) {
 		m := map[uint16]uint16{}
